@@ -312,10 +312,7 @@ func c16CheckHist(c *lib.Ctx, h c16Hist, model string) bool {
 			keyKind = strings.Join(kk, "+")
 		}
 		sig := fmt.Sprintf("hash op=%s key=%s aspect=%s", c16OpNames[op[0]], keyKind, c16HistAspect(op, obs[i], want[i]))
-		if h.sweep {
-			sig = fmt.Sprintf("hash cell=%s step=%d op=%s aspect=%s", h.cell, i, c16OpNames[op[0]], c16HistAspect(op, obs[i], want[i]))
-		}
-		c.Report(sig, h.sweep, map[string]any{"family": "hist", "make": h.make, "keys": h.keys, "ops": h.ops, "input": h.text(keys),
+		c.Report(sig, h.sweep, map[string]any{"family": "hist", "cell": h.cell, "make": h.make, "keys": h.keys, "ops": h.ops, "input": h.text(keys),
 			"observed": strings.Join(obs, " "), "expected": strings.Join(want, " "), "first_difference_at_op": i,
 			"expected_from": "model:eq.hist", "relies_on": []string{"SlipVerif.HashTable.hashtable_refines_map", "SlipVerif.HashTable.count_is_number_of_distinct_keys"}})
 		return false
@@ -394,9 +391,9 @@ func c16HashFamily(c *lib.Ctx) {
 	// --- composite: random histories (<= 12 ops) over 2..6 keys of every hashable kind; key kinds
 	// with a listed finding are not used
 	var pool []string
-	for i, w := range kw {
-		base := strings.TrimSuffix(strings.TrimSuffix(kn[i], "-copy"), "-other")
-		if c.Findings.Listed("C16", "hash cell="+base+"/") || c.Findings.Listed("C16", "hash cell="+kn[i]+"/") {
+	for _, w := range kw {
+		// key kinds with a listed finding (signature "hash op=… key=<kind> …") are not used
+		if c.Findings.Listed("C16", "hash op=setf-gethash key="+c16FromWire(w).kind+" ") {
 			continue
 		}
 		pool = append(pool, w)
